@@ -211,6 +211,21 @@ static void finish_opts(AppOpts &a, const std::string &rpath, const std::string 
   a.o.sortlist = a.sort.empty() ? nullptr : a.sort.data(); a.o.nsort = (int)a.sort.size();
   a.o.servers = a.servers.empty() ? nullptr : a.servers.data(); a.o.nservers = (int)a.servers.size();
 }
+// Interface names for link-local servers.  The sandbox only has "lo"; the channel's interface callbacks are the documented extension point
+// (struct ares_socket_functions_ex), so the C16 channels get a table of realistic names.  No I/O happens in this harness: the socket members fail.
+static const char *kIfaces[] = {"", "lo", "br-lan", "eth0.100", "wl_0", "eth1"};
+static ares_socket_t vi_socket(int, int, int, void *) { return ARES_SOCKET_BAD; }
+static int vi_close(ares_socket_t, void *) { return 0; }
+static int vi_sso(ares_socket_t, ares_socket_opt_t, const void *, ares_socklen_t, void *) { return 0; }
+static int vi_conn(ares_socket_t, const struct sockaddr *, ares_socklen_t, unsigned int, void *) { return -1; }
+static ares_ssize_t vi_recv(ares_socket_t, void *, size_t, int, struct sockaddr *, ares_socklen_t *, void *) { return -1; }
+static ares_ssize_t vi_send(ares_socket_t, const void *, size_t, int, const struct sockaddr *, ares_socklen_t, void *) { return -1; }
+static unsigned int vi_n2i(const char *n, void *) { for (unsigned i = 1; i < sizeof kIfaces / sizeof *kIfaces; i++) if (!strcmp(n, kIfaces[i])) return i; return 0; }
+static const char *vi_i2n(unsigned int i, char *b, size_t l, void *) { if (i < 1 || i >= sizeof kIfaces / sizeof *kIfaces) return nullptr; snprintf(b, l, "%s", kIfaces[i]); return b; }
+static void install_ifaces(ares_channel_t *ch) {
+  static struct ares_socket_functions_ex f; memset(&f, 0, sizeof f); f.version = 1; f.asocket = vi_socket; f.aclose = vi_close; f.asetsockopt = vi_sso; f.aconnect = vi_conn; f.arecvfrom = vi_recv; f.asendto = vi_send; f.aif_nametoindex = vi_n2i; f.aif_indextoname = vi_i2n;
+  ares_set_socket_functions_ex(ch, &f, nullptr);
+}
 // Independent reading of a server list: what the application wrote (the harness's own item forms) and what the library prints are both
 // parsed by this small parser into (address, udp port, tcp port, interface); the two lists must agree.  Nothing of the library is used here
 // apart from inet_pton/inet_ntop of libc, so a server the library drops, reorders, or gives another port shows.
@@ -252,6 +267,7 @@ static bool stup_list(const std::string &csv, unsigned defu, unsigned deft, std:
   out.clear(); std::istringstream ds(csv); std::string d;
   while (std::getline(ds, d, ',')) { if (d.empty()) continue; STup t; if (!stup_item(d, t)) return false;
     if (t.ip.compare(0, 4, "fec0") == 0 || (t.ip.compare(0, 4, "fe80") == 0 && t.iface.empty())) return false;   // outside what the harness writes
+    { unsigned ix = 0; if (!t.iface.empty() && stup_num(t.iface, ix)) { if (ix < 1 || ix >= sizeof kIfaces / sizeof *kIfaces) return false; t.iface = kIfaces[ix]; } else if (!t.iface.empty() && !vi_n2i(t.iface.c_str(), nullptr)) return false; }
     if (!t.up) t.up = defu ? defu : 53; if (!t.tp) t.tp = deft ? deft : 53;
     bool dup = false; for (auto &x : out) if (x.ip == t.ip && x.up == t.up && x.tp == t.tp) dup = true; if (!dup) out.push_back(t); }
   return true;
@@ -270,6 +286,7 @@ static bool run_c16(const Case &c, Verdict &v, bool &nontrivial) {
   AppOpts a; memset(&a.o, 0, sizeof a.o); for (auto &kv : c.opts) apply_opt(a, kv.first, kv.second); finish_opts(a, rp, hp);
   ares_channel_t *ch = nullptr; int st = ares_init_options(&ch, &a.o, a.mask);
   if (st != ARES_SUCCESS) { stats().count("c16.init_rejected"); return true; }   // a rejected combination says nothing about fidelity
+  install_ifaces(ch);
   std::string expect_servers;
   if (!a.servers.empty()) { for (auto &x : a.servers) { char b[32]; inet_ntop(AF_INET, &x, b, sizeof b); unsigned short up = (a.mask & ARES_OPT_UDP_PORT) && a.o.udp_port ? a.o.udp_port : 53; (void)up; } }
   // servers through one of the setters
@@ -316,7 +333,7 @@ static bool run_c16(const Case &c, Verdict &v, bool &nontrivial) {
   // duplicate reads the current file afresh: only what the application supplied is comparable then.
   std::set<std::string> sysderived; if (c.reinit) for (auto &kv : S.f) { bool app = a.expect.count(kv.first) || kv.first == "local_dev" || kv.first == "local_ip4" || kv.first == "local_ip6" || (kv.first == "servers" && (ch->optmask & ARES_OPT_SERVERS)) || kv.first == "optmask"; if (!app) sysderived.insert(kv.first); }
   // (3) the server list rendered as text and fed back reproduces itself
-  if (ok) { int s2 = 0; ares_channel_t *t = init_from("", "", nullptr, s2); if (t) { std::string csv = S.f["servers"]; int rc = ares_set_servers_ports_csv(t, csv.c_str());
+  if (ok) { int s2 = 0; ares_channel_t *t = init_from("", "", nullptr, s2); if (t) { install_ifaces(t); std::string csv = S.f["servers"]; int rc = ares_set_servers_ports_csv(t, csv.c_str());
       if (rc != ARES_SUCCESS) ok = failv(v, "C16.rendered-server-list-rejected", "ares_get_servers_csv gave '" + csv + "' which ares_set_servers_ports_csv rejects: " + ares_strerror(rc));
       else { char *got = ares_get_servers_csv(t); std::string g = got ? got : "(null)"; ares_free_string(got); if (g != csv) ok = failv(v, "C16.server-list-text-round-trip", "'" + csv + "' fed back gives '" + g + "'"); else stats().count("c16.csv_round_trips"); }
       ares_destroy(t); } }
@@ -421,8 +438,8 @@ static std::string gen_case(const std::string &prop, const std::string &kind, co
   unsigned nsets = c.pick(3);
   for (unsigned i = 0; i < nsets; i++) { static const char *how[] = {"csv", "portscsv", "legacy", "legacyports"}; std::string h = how[c.pick(4)]; std::string csv; unsigned n = 1 + c.pick(4);
     for (unsigned q = 0; q < n; q++) { std::string ip = gen_ip(c); bool v6 = ip.find(':') != std::string::npos; std::string item;
-      // link-local servers need an interface; "lo" always exists.  (Only the two text setters can express one.)
-      if ((h == "csv" || h == "portscsv") && c.chance(1, 6)) { std::string ll = "fe80::" + std::to_string(1 + c.pick(50)); unsigned f = c.pick(3); item = f == 0 ? ll + "%lo" : (f == 1 ? "[" + ll + "]:" + gen_port(false) + "%lo" : "dns://[" + ll + "%lo]:" + gen_port(false) + "?tcpport=" + gen_port(false)); csv += (q ? "," : "") + item; continue; }
+      // link-local servers need an interface (names from kIfaces, also by index).  (Only the two text setters can express one.)
+      if ((h == "csv" || h == "portscsv") && c.chance(1, 6)) { std::string ll = "fe80::" + std::to_string(1 + c.pick(50)); static const char *ifs[] = {"lo", "br-lan", "eth0.100", "wl_0", "eth1", "3", "1"}; std::string ifn = ifs[c.pick(7)]; unsigned f = c.pick(3); item = f == 0 ? ll + "%" + ifn : (f == 1 ? "[" + ll + "]:" + gen_port(false) + "%" + ifn : "dns://[" + ll + "%" + ifn + "]:" + gen_port(false) + "?tcpport=" + gen_port(false)); csv += (q ? "," : "") + item; continue; }
       if (h == "legacy") item = ip; else if (h == "legacyports") item = ip + "|" + gen_port(true) + "|" + gen_port(true);
       else { unsigned f = c.pick(5); if (f == 0) item = ip; else if (f == 1) item = "[" + ip + "]:" + gen_port(false); else if (f == 2) item = "dns://" + (v6 ? "[" + ip + "]" : ip) + ":" + gen_port(false) + "?tcpport=" + gen_port(false); else if (f == 3 && !v6) item = ip + ":" + gen_port(false); else item = ip; }
       csv += (q ? "," : "") + item; }
